@@ -24,6 +24,7 @@ static int g_n = 0;
 static int g_prefix[SCH_MAXP]; static int g_prefix_len = 0;
 static struct sch_pt g_trace[SCH_MAXP]; static int g_trace_len = 0;
 static volatile int g_lock = 0;               /* protects the decision (only one thread is ever running, but starts race) */
+static int g_kind = 1; static unsigned g_site = 0;                        /* kind of the point being decided */
 static int g_active = 0; static int g_diverged = 0; static int g_current = -1; static volatile int g_started = 0;
 
 static void fwait(volatile int* addr, int val) { syscall(SYS_futex, addr, FUTEX_WAIT, val, NULL, NULL, 0); }
@@ -51,7 +52,7 @@ static void decide(int from) {
 		if (choice < 0 || choice >= g_n || !(enabled & (1u << choice))) { g_diverged = 1; choice = -1; }
 	} else choice = -1;
 	if (choice < 0) { if (from >= 0 && (enabled & (1u << from))) choice = from; else for (int i = 0; i < g_n; ++i) if (enabled & (1u << i)) { choice = i; break; } }
-	if (g_trace_len < SCH_MAXP) { g_trace[g_trace_len].enabled = enabled; g_trace[g_trace_len].chosen = choice; g_trace[g_trace_len].running = (from >= 0 && (enabled & (1u << from))) ? from : -1; ++g_trace_len; }
+	if (g_trace_len < SCH_MAXP) { g_trace[g_trace_len].enabled = enabled; g_trace[g_trace_len].chosen = choice; g_trace[g_trace_len].running = (from >= 0 && (enabled & (1u << from))) ? from : -1; g_trace[g_trace_len].kind = from >= 0 ? g_kind : 1; g_trace[g_trace_len].site = from >= 0 ? g_site : 0; ++g_trace_len; }
 	g_current = choice; g_turn = choice; g_state[choice] = 2;
 	g_futex[choice] = 1; fwake(&g_futex[choice]);
 }
@@ -66,11 +67,13 @@ void sch_thread_begin(int tid) {
 	lock(); g_state[tid] = 1; int all = ++g_started == g_n; if (all) decide(-1); unlock();   /* the first decision waits until every thread has arrived: deterministic start */
 	park(tid);
 }
-void sch_point(int tid) {
+void sch_point_ks(int tid, int kind, unsigned site) {
 	if (!g_active || tid < 0) return;
-	lock(); g_state[tid] = 1; g_turn = -1; decide(tid); unlock();
+	lock(); g_state[tid] = 1; g_turn = -1; g_kind = kind; g_site = site; decide(tid); unlock();
 	park(tid);
 }
+void sch_point_k(int tid, int kind) { sch_point_ks(tid, kind, 0); }
+void sch_point(int tid) { sch_point_k(tid, 0); }
 void sch_thread_end(int tid) {
 	if (!g_active) return;
 	lock(); g_state[tid] = 3; g_turn = -1; decide(-1); unlock();
